@@ -1172,7 +1172,7 @@ def children_shape_ranks(rank, n):
             break
         rank -= num_trees_with_part
     else:
-        if n != 1:
+        if n != 1 or rank != 0:
             raise ValueError("Rank is out of bounds.")
 
     grouped_part = group_partition(part)
